@@ -53,6 +53,10 @@ func c07Sandbox(r *RNG, ts *TS) *c07Box {
 	os.WriteFile(filepath.Join(cfg, ".info_"+c07RootName), c07Info(m), 0644)
 	w(filepath.Join(cfg, "outside.txt"), m+" outside")
 	w(filepath.Join(cfg, "Sibling", "secret.txt"), m+" secret")
+	w(filepath.Join(cfg, "Sibling", m+".txt"), "a name that only exists outside the root")
+	w(filepath.Join(cfg, c07RootName+"2", m+".txt"), "a name that only exists outside the root")
+	w(filepath.Join(ts.Users, m+".txt"), "a name that only exists outside the root")
+	w(filepath.Join(ts.Dir, m+".txt"), "a name that only exists outside the root")
 	w(filepath.Join(cfg, c07RootName+"2", "x.txt"), m+" prefix-sharing sibling")
 	w(filepath.Join(cfg, "x.yaml"), m+" yaml next to the accounts dir")
 	w(filepath.Join(cfg, "victim.yaml"), m+" victim")
@@ -355,6 +359,30 @@ func applyRootForm(ts *TS, cc *hotline.ClientConn, form int) string {
 	return "clean config root"
 }
 
+// aliasesOutside lists every symlink below root whose target — resolved the way the OS resolves it, relative targets
+// against the link's own folder — is not the root or below it.
+func aliasesOutside(root string) []string {
+	var bad []string
+	filepath.Walk(root, func(p string, info os.FileInfo, err error) error {
+		if err != nil || info.Mode()&os.ModeSymlink == 0 {
+			return nil
+		}
+		tgt, err := os.Readlink(p)
+		if err != nil {
+			return nil
+		}
+		if !filepath.IsAbs(tgt) {
+			tgt = filepath.Join(filepath.Dir(p), tgt)
+		}
+		tgt = filepath.Clean(tgt)
+		if tgt != root && !strings.HasPrefix(tgt, root+"/") {
+			bad = append(bad, p+" -> "+tgt)
+		}
+		return nil
+	})
+	return bad
+}
+
 func newC07Run(c *Case, forks bool) *c07Run { return newC07RunForm(c, forks, c.R.Intn(4)) }
 
 func newC07RunForm(c *Case, forks bool, form int) *c07Run {
@@ -402,6 +430,15 @@ func (h *c07Run) Do(q fileReq) bool {
 	if li, err := os.Lstat(ts.Root); err != nil || !li.IsDir() {
 		c.Note("request", q.String())
 		c.Violation("root-gone-"+q.Kind, "the file root itself was removed or replaced")
+		return false
+	}
+	// every alias inside the root must resolve inside the root — after EVERY request, not only after make-alias:
+	// a move or rename must not re-anchor an alias
+	if bad := aliasesOutside(ts.Root); len(bad) > 0 {
+		c.Note("request", q.String())
+		c.Note("aliases_resolving_outside_the_root", bad)
+		c.Note("history", h.trace)
+		c.Violation("alias-points-outside-"+q.Kind, "after a "+q.Kind+" request an alias inside the file root resolves to a path outside it")
 		return false
 	}
 	c.Nontrivial(q.Kind + "|" + optTok(q.PF, q.HasPF) + "|" + hx(q.Name) + "|" + optTok(q.NewPF, q.HasNewPF) + "|" + optTok(q.NewName, q.HasNewName))
@@ -455,10 +492,99 @@ func c07Canary(c *Case) {
 	c.Sample(map[string]any{"family": "handlers-canary", "last": h.trace[len(h.trace)-1]})
 }
 
+// c07AliasSeq: sequences of ORDINARY requests around aliases: make an alias at some depth, move / rename it to another
+// depth, then work THROUGH it (list, new folder, upload request, delete, info, download, comment).  The root holds folders
+// named like the entries next to the root, so that an alias re-anchored by a move would resolve to something real.
+func c07AliasSeq(c *Case) {
+	r := c.R
+	h := newC07Run(c, r.Bool())
+	if h == nil {
+		return
+	}
+	defer h.ts.Close()
+	c07AliasSeqRun(h, r, false)
+	c.Sample(map[string]any{"family": "alias-sequences", "last": h.trace[len(h.trace)-1]})
+}
+
+func c07AliasSeqRun(h *c07Run, r *RNG, fixed bool) bool {
+	ts := h.ts
+	outsideNames := []string{"Users", "Sibling", c07RootName + "2", c07RootName, "config"}
+	for _, n := range outsideNames {
+		os.MkdirAll(filepath.Join(ts.Root, n), 0755)
+		os.WriteFile(filepath.Join(ts.Root, n, "inside.txt"), []byte("inside "+n), 0644)
+	}
+	os.MkdirAll(filepath.Join(ts.Root, "a", "b", "c"), 0755)
+	os.MkdirAll(filepath.Join(ts.Root, "p", "q"), 0755)
+	h.before = h.box.outside(ts.Root)
+	chains := [][]string{{}, {"a"}, {"a", "b"}, {"a", "b", "c"}, {"p"}, {"p", "q"}, {"sub"}, {"sub", "deep"}}
+	enc := func(ch []string) ([]byte, bool) {
+		if len(ch) == 0 {
+			return nil, false
+		}
+		var it [][]byte
+		for _, x := range ch {
+			it = append(it, []byte(x))
+		}
+		return encItems(it), true
+	}
+	rounds := 5
+	if fixed {
+		rounds = 4
+	}
+	for k := 0; k < rounds; k++ {
+		name := outsideNames[r.Intn(len(outsideNames))]
+		at := chains[2+r.Intn(2)] // depth >= 2
+		to := chains[r.Intn(len(chains))]
+		if fixed {
+			name = outsideNames[k]
+			at, to = []string{"a", "b"}, []string{"a"}
+			if k%2 == 1 {
+				at, to = []string{"a", "b", "c"}, []string{"p"}
+			}
+		}
+		apf, ahas := enc(at)
+		tpf, thas := enc(to)
+		steps := []fileReq{
+			{Kind: "alias", Name: []byte(name), NewPF: apf, HasNewPF: ahas},                       // root/name -> at/name
+			{Kind: "move", PF: apf, HasPF: ahas, Name: []byte(name), NewPF: tpf, HasNewPF: thas}, // move the alias to another depth
+		}
+		if !fixed && r.Chance(30) { // or rename it in place first
+			steps = append(steps[:1], append([]fileReq{{Kind: "setinfo", PF: apf, HasPF: ahas, Name: []byte(name), NewName: []byte(name + "-r"), HasNewName: true}}, steps[1:]...)...)
+		}
+		through := append(append([]string{}, to...), name)
+		gpf, ghas := enc(through)
+		steps = append(steps,
+			fileReq{Kind: "list", PF: gpf, HasPF: ghas},
+			fileReq{Kind: "info", PF: tpf, HasPF: thas, Name: []byte(name)},
+			fileReq{Kind: "newfolder", PF: gpf, HasPF: ghas, Name: []byte("made-through-alias")},
+			fileReq{Kind: "upload", PF: gpf, HasPF: ghas, Name: []byte("up.bin")},
+			fileReq{Kind: "download", PF: gpf, HasPF: ghas, Name: []byte("secret.txt")},
+			fileReq{Kind: "setinfo", PF: gpf, HasPF: ghas, Name: []byte("secret.txt"), Comment: []byte("c"), HasComment: true},
+			fileReq{Kind: "delete", PF: gpf, HasPF: ghas, Name: []byte("secret.txt")},
+			fileReq{Kind: "dlfolder", PF: tpf, HasPF: thas, Name: []byte(name)},
+			fileReq{Kind: "delete", PF: tpf, HasPF: thas, Name: []byte(name)}, // finally remove the alias itself
+		)
+		for _, q := range steps {
+			if !h.Do(q) {
+				return false
+			}
+		}
+	}
+	return true
+}
+
 // c07Regressions replays the inputs on which the code failed before the fix: commits (kept as a fixed corpus).
 func c07Regressions(c *Case) {
 	for form := 0; form < 4; form++ {
 		if !c07RegressionsForm(c, form) {
+			return
+		}
+	}
+	// aliases made at one depth and moved to another, then used as folders
+	if h := newC07RunForm(c, true, 0); h != nil {
+		ok := c07AliasSeqRun(h, c.R, true)
+		h.ts.Close()
+		if !ok {
 			return
 		}
 	}
@@ -1386,6 +1512,7 @@ func init() {
 		x.Add(&Family{Name: "clean-join", Quick: 4000, Thor: 100000, Run: c07CleanJoin})
 		x.Add(&Family{Name: "folder-item-path", Quick: 4000, Thor: 100000, Run: c07FuPath})
 		x.Add(&Family{Name: "handlers-canary", Quick: 256, Thor: 4000, Run: c07Canary})
+		x.Add(&Family{Name: "alias-sequences", Quick: 64, Thor: 1200, Run: c07AliasSeq})
 		x.Add(&Family{Name: "accounts", Quick: 48, Thor: 800, Run: c07Accounts})
 		x.Add(&Family{Name: "transfers", Quick: 48, Thor: 480, Run: c07Transfers})
 		if x.Tier == "thorough" {
